@@ -1,5 +1,5 @@
 #!/venv/bin/python
-"""Translator: /repo working tree  ->  lean/MdVerif/Generated/{Chars,Tables}.lean  (+ generated/model_map.json)
+"""Translator: /repo working tree  ->  lean/MdVerif/Generated/{Chars,Tables,Census}.lean  (+ generated/model_map.json)
 
 Everything is read from the *source text* of the repository with `ast` (nothing under /repo is imported by
 this step), except the Unicode character classes and `HTML_EMPTY`, which come from the running CPython /
@@ -534,6 +534,455 @@ def gen_tables(src, report):
                           'ext_escaped': ext_esc, 'extensions': exts, 'entry_points': eps, 'extra': extra}
 
 
+# --------------------------------------------------------------------------------------- Census
+# Structural census of mutable state (C11 hypothesis H1, C12 hypothesis "shared state is read-only or memo").
+# Everything is syntactic: the census lists *where the source text writes*; `Props/C11Census.lean` decides, by
+# `decide` over these lists, that every write falls into a justified category.
+
+MUTATORS = {'append', 'extend', 'insert', 'pop', 'remove', 'clear', 'update', 'add', 'discard', 'setdefault', 'sort',
+            'reverse', 'popitem'}
+# attribute (or parameter) name -> class of the object it holds, where this is evident from the constructors
+CENSUS_RESOLVE = {'md': 'Markdown', 'parser': 'BlockParser', 'htmlStash': 'HtmlStash', 'state': 'State'}
+HARMLESS_DECORATORS = {'overload', 'wraps', 'property', 'staticmethod', 'classmethod', 'abstractmethod', 'deprecated',
+                       'util.deprecated'}
+MEMO_DECORATORS = {'lru_cache', 'cache', 'cached_property', 'functools.lru_cache', 'functools.cache',
+                   'functools.cached_property'}
+DYNAMIC_WRITERS = {'setattr', 'delattr', 'globals', 'vars', 'locals', 'exec', 'eval'}
+
+
+def census_files(repo):
+    out = []
+    for d, _, fs in os.walk(os.path.join(repo, 'markdown')):
+        for f in fs:
+            if f.endswith('.py'): out.append(os.path.relpath(os.path.join(d, f), repo))
+    return sorted(out)
+
+
+def _chain(expr):
+    """`root.a.b[k].c` -> ('root', ['a', 'b', 'c']); subscripts are dropped (writing an item mutates the container).
+    None when the expression is not rooted at a name (a call result, a literal, …)."""
+    attrs = []
+    while True:
+        if isinstance(expr, ast.Subscript): expr = expr.value
+        elif isinstance(expr, ast.Starred): expr = expr.value
+        elif isinstance(expr, ast.Attribute): attrs.append(expr.attr); expr = expr.value
+        elif isinstance(expr, ast.Name): return expr.id, attrs[::-1]
+        elif (isinstance(expr, ast.Call) and isinstance(expr.func, ast.Name) and expr.func.id == 'type'):
+            return '<type()>', attrs[::-1]
+        else: return None
+
+
+def _module_names(tree):
+    names = set()
+    def tgt(t):
+        if isinstance(t, ast.Name): names.add(t.id)
+        elif isinstance(t, (ast.Tuple, ast.List)):
+            for e in t.elts: tgt(e)
+        elif isinstance(t, ast.Starred): tgt(t.value)
+    def body(b):
+        for st in b:
+            if isinstance(st, (ast.FunctionDef, ast.AsyncFunctionDef, ast.ClassDef)): names.add(st.name)
+            elif isinstance(st, ast.Assign):
+                for t in st.targets: tgt(t)
+            elif isinstance(st, (ast.AnnAssign, ast.AugAssign)): tgt(st.target)
+            elif isinstance(st, (ast.Import, ast.ImportFrom)):
+                for a in st.names: names.add((a.asname or a.name).split('.')[0])
+            elif isinstance(st, (ast.If, ast.For, ast.While, ast.With, ast.Try)):
+                if isinstance(st, ast.For): tgt(st.target)
+                for f in ('body', 'orelse', 'finalbody'): body(getattr(st, f, []))
+                for h in getattr(st, 'handlers', []): body(h.body)
+    body(tree.body)
+    return names
+
+
+def _local_names(fn):
+    """names bound in the function itself (parameters, assignments, loop variables, imports, …), minus `global` ones"""
+    names = set(); glob = set()
+    a = fn.args
+    for x in a.posonlyargs + a.args + a.kwonlyargs: names.add(x.arg)
+    if a.vararg: names.add(a.vararg.arg)
+    if a.kwarg: names.add(a.kwarg.arg)
+    def walk(n):
+        for c in ast.iter_child_nodes(n):
+            if isinstance(c, (ast.FunctionDef, ast.AsyncFunctionDef, ast.ClassDef)):
+                names.add(c.name); continue
+            if isinstance(c, ast.Lambda): continue
+            if isinstance(c, ast.Global): glob.update(c.names)
+            if isinstance(c, ast.Name) and isinstance(c.ctx, (ast.Store, ast.Del)): names.add(c.id)
+            if isinstance(c, (ast.Import, ast.ImportFrom)):
+                for al in c.names: names.add((al.asname or al.name).split('.')[0])
+            if isinstance(c, ast.ExceptHandler) and c.name: names.add(c.name)
+            walk(c)
+    walk(fn)
+    return names - glob, glob
+
+
+def _flat_stmt(st):
+    if isinstance(st, ast.For) and not st.orelse:
+        return 'for %s in %s: %s' % (ast.unparse(st.target), ast.unparse(st.iter), '; '.join(_flat_stmt(b) for b in st.body))
+    if isinstance(st, ast.If) and not st.orelse:
+        return 'if %s: %s' % (ast.unparse(st.test), '; '.join(_flat_stmt(b) for b in st.body))
+    if isinstance(st, (ast.For, ast.If, ast.While, ast.With, ast.Try)):
+        raise Mismatch('statement shape ' + type(st).__name__)
+    return ast.unparse(st)
+
+
+class _FnWrites:
+    """the writes of one function body (nested functions included, each with its own local names)"""
+
+    def __init__(self, rel, cls, qual, method, fn, modnames, report, outer_locals=frozenset(), outer_params=frozenset()):
+        self.rel, self.cls, self.qual, self.method, self.report = rel, cls, qual, method, report
+        self.modnames = modnames
+        loc, self.glob = _local_names(fn)
+        self.locals = set(loc) | set(outer_locals)
+        a = fn.args
+        self.params = set(x.arg for x in a.posonlyargs + a.args + a.kwonlyargs) | set(outer_params)
+        self.inst = []      # (owner, attr, kind)
+        self.shared = []    # target text
+        self.fn = fn
+        self.aliases = self._aliases(fn)
+        self._walk(fn)
+
+    # one-level aliases: a local name assigned exactly once, from an attribute chain rooted at `self`, at a
+    # resolvable parameter or at a module-level name
+    def _aliases(self, fn):
+        cnt = {}; val = {}
+        def walk(n):
+            for c in ast.iter_child_nodes(n):
+                if isinstance(c, (ast.FunctionDef, ast.AsyncFunctionDef, ast.ClassDef, ast.Lambda)): continue
+                if isinstance(c, ast.Name) and isinstance(c.ctx, (ast.Store, ast.Del)):
+                    cnt[c.id] = cnt.get(c.id, 0) + 1
+                if isinstance(c, ast.Assign) and len(c.targets) == 1 and isinstance(c.targets[0], ast.Name):
+                    val[c.targets[0].id] = c.value
+                if isinstance(c, ast.AnnAssign) and isinstance(c.target, ast.Name) and c.value is not None:
+                    val[c.target.id] = c.value
+                walk(c)
+        walk(fn)
+        al = {}
+        for nm, v in val.items():
+            if cnt.get(nm) != 1 or nm in self.params: continue
+            ch = _chain(v)
+            if ch is None: continue
+            root, attrs = ch
+            if not attrs and root != 'self' and not self._is_shared_root(root): continue
+            if root == 'self' or (root in CENSUS_RESOLVE and root in self.params) or self._is_shared_root(root):
+                al[nm] = (root, attrs)
+        return al
+
+    def _is_shared_root(self, root):
+        if root in ('cls', '<type()>'): return True
+        return root in self.modnames and root not in self.locals
+
+    def _resolve(self, root, attrs):
+        """-> ('inst', owner, attr) | ('shared', text) | None"""
+        if root in self.aliases and root not in ('self',):
+            r0, a0 = self.aliases[root]
+            root, attrs = r0, a0 + attrs
+        if root == 'self' and self.cls is not None:
+            if attrs[:1] == ['__class__']: return ('shared', 'self.' + '.'.join(attrs))
+            owner = self.cls
+        elif root in CENSUS_RESOLVE and root in self.params:
+            owner = CENSUS_RESOLVE[root]
+        elif self._is_shared_root(root):
+            return ('shared', '.'.join([root] + attrs))
+        else:
+            return None
+        if not attrs: return ('inst', owner, '<self>')
+        for a in attrs[:-1]:
+            owner = CENSUS_RESOLVE.get(a, '?')
+            if owner == '?': return ('inst', '?', '.'.join([root] + attrs))
+        return ('inst', owner, attrs[-1])
+
+    def _write(self, expr, kind, node):
+        if isinstance(expr, (ast.Tuple, ast.List)):
+            for e in expr.elts: self._write(e, kind, node)
+            return
+        if isinstance(expr, ast.Starred): return self._write(expr.value, kind, node)
+        if isinstance(expr, ast.IfExp):
+            self._write(expr.body, kind, node); self._write(expr.orelse, kind, node)
+            return
+        if isinstance(expr, ast.Name) and not kind.startswith('call:'):
+            if expr.id in self.glob: self.shared.append('global ' + expr.id)
+            return
+        if not isinstance(expr, (ast.Attribute, ast.Subscript, ast.Name)):
+            if not kind.startswith('call:'):    # `f(x).append(…)`, `[…].sort()`: a temporary, not a named object
+                self.report.append('translator-mismatch:census:target %s in %s %s' % (type(expr).__name__, self.rel, self.qual))
+            return
+        if isinstance(expr, ast.Subscript): kind = {'assign': 'setitem', 'augassign': 'setitem', 'del': 'delitem'}.get(kind, kind)
+        ch = _chain(expr)
+        if ch is None: return
+        root, attrs = ch
+        if isinstance(expr, ast.Subscript) or kind.startswith('call:'):
+            pass            # the object named by the whole chain is mutated
+        elif not attrs:
+            return
+        r = self._resolve(root, attrs)
+        if r is None: return
+        if r[0] == 'inst': self.inst.append((r[1], r[2], kind))
+        else: self.shared.append(r[1] + {'setitem': '[]', 'delitem': '[]'}.get(kind, '') +
+                                 ('.%s()' % kind[5:] if kind.startswith('call:') else ''))
+
+    def _walk(self, n):
+        for c in ast.iter_child_nodes(n):
+            if isinstance(c, (ast.FunctionDef, ast.AsyncFunctionDef)):
+                sub = _FnWrites(self.rel, self.cls, self.qual + '.<locals>.' + c.name, self.method, c, self.modnames,
+                                self.report, self.locals, self.params)
+                self.inst += sub.inst; self.shared += sub.shared
+                continue
+            if isinstance(c, ast.ClassDef):
+                self.report.append('translator-mismatch:census:class %s inside function %s %s' % (c.name, self.rel, self.qual))
+                continue
+            if isinstance(c, ast.Assign):
+                for t in c.targets: self._write(t, 'assign', c)
+            elif isinstance(c, ast.AnnAssign):
+                if c.value is not None: self._write(c.target, 'assign', c)
+            elif isinstance(c, ast.AugAssign): self._write(c.target, 'augassign', c)
+            elif isinstance(c, ast.Delete):
+                for t in c.targets: self._write(t, 'del', c)
+            elif isinstance(c, (ast.For, ast.AsyncFor)): self._write(c.target, 'assign', c)
+            elif isinstance(c, (ast.With, ast.AsyncWith)):
+                for it in c.items:
+                    if it.optional_vars is not None: self._write(it.optional_vars, 'assign', c)
+            elif isinstance(c, ast.NamedExpr): self._write(c.target, 'assign', c)
+            elif isinstance(c, ast.Call):
+                f = c.func
+                if isinstance(f, ast.Attribute) and f.attr in MUTATORS:
+                    self._write(f.value, 'call:' + f.attr, c)
+                elif isinstance(f, ast.Name) and f.id in DYNAMIC_WRITERS and f.id not in self.locals:
+                    self.report.append('translator-mismatch:census:%s() in %s %s' % (f.id, self.rel, self.qual))
+            elif isinstance(c, ast.Attribute) and c.attr == '__dict__':
+                self.report.append('translator-mismatch:census:__dict__ in %s %s' % (self.rel, self.qual))
+            elif isinstance(c, ast.Nonlocal):
+                self.report.append('translator-mismatch:census:nonlocal in %s %s' % (self.rel, self.qual))
+            self._walk(c)
+
+
+def gen_census(src, report):
+    files = census_files(src.repo)
+    classes = {}            # (file, class) -> {'bases', 'body_names', 'self_assigned', 'methods'}
+    inst_sites = []         # (owner, attr, kind, file, Class.method, method)
+    shared = []             # (file, function, target)
+    memo = []               # (file, function, decorator)
+    for rel in files:
+        tree = src.tree(rel)
+        modnames = _module_names(tree)
+        def decorators(fn, qual):
+            for d in fn.decorator_list:
+                f = d.func if isinstance(d, ast.Call) else d
+                name = ast.unparse(f)
+                if name in MEMO_DECORATORS: memo.append((rel, qual, ast.unparse(d)))
+                elif name in HARMLESS_DECORATORS or name.endswith('.setter') or name.endswith('.getter'): pass
+                else: report.append('translator-mismatch:census:decorator %s on %s %s' % (name, rel, qual))
+        def do_function(fn, cls, qual):
+            decorators(fn, qual)
+            w = _FnWrites(rel, cls, qual, fn.name, fn, modnames, report)
+            for d in ast.walk(fn):
+                if d is not fn and isinstance(d, (ast.FunctionDef, ast.AsyncFunctionDef)): decorators(d, qual + '.<locals>.' + d.name)
+            for t in w.shared: shared.append((rel, qual, t))
+            return w
+        def do_class(cd, prefix):
+            qn = prefix + cd.name
+            info = {'bases': [ast.unparse(b) for b in cd.bases], 'body_names': set(), 'self_assigned': set(), 'methods': {}}
+            classes[(rel, qn)] = info
+            for d in cd.decorator_list:
+                name = ast.unparse(d.func if isinstance(d, ast.Call) else d)
+                if name not in HARMLESS_DECORATORS:
+                    report.append('translator-mismatch:census:class decorator %s on %s %s' % (name, rel, qn))
+            for st in cd.body:
+                if isinstance(st, ast.Assign):
+                    for t in st.targets:
+                        if isinstance(t, ast.Name): info['body_names'].add(t.id)
+                elif isinstance(st, ast.AnnAssign) and isinstance(st.target, ast.Name) and st.value is not None:
+                    info['body_names'].add(st.target.id)
+                elif isinstance(st, (ast.FunctionDef, ast.AsyncFunctionDef)):
+                    w = do_function(st, qn, qn + '.' + st.name)
+                    info['methods'][st.name] = (st, w)
+                    for n in ast.walk(st):
+                        tg = []
+                        if isinstance(n, ast.Assign): tg = n.targets
+                        elif isinstance(n, (ast.AnnAssign, ast.AugAssign)): tg = [n.target]
+                        for t in tg:
+                            for e in (t.elts if isinstance(t, (ast.Tuple, ast.List)) else [t]):
+                                if isinstance(e, ast.Attribute) and isinstance(e.value, ast.Name) and e.value.id == 'self':
+                                    info['self_assigned'].add(e.attr)
+                    if st.name != '__init__':
+                        for owner, attr, kind in w.inst:
+                            inst_sites.append((owner, attr, kind, rel, qn + '.' + st.name, st.name))
+                elif isinstance(st, ast.ClassDef): do_class(st, qn + '.')
+        def do_body(body):
+            for st in body:
+                if isinstance(st, (ast.FunctionDef, ast.AsyncFunctionDef)):
+                    w = do_function(st, None, st.name)
+                    for owner, attr, kind in w.inst:
+                        inst_sites.append((owner, attr, kind, rel, st.name, st.name))
+                elif isinstance(st, ast.ClassDef): do_class(st, '')
+                elif isinstance(st, (ast.If, ast.Try, ast.With, ast.For, ast.While)):
+                    for f in ('body', 'orelse', 'finalbody'): do_body(getattr(st, f, []))
+                    for h in getattr(st, 'handlers', []): do_body(h.body)
+        do_body(tree.body)
+
+    # class-level state mutated in place through `self`: `self.X.append(…)` / `self.X[k] = v` where `X` is bound in the
+    # class body (of the class or of a base class in the package) and never assigned on `self`
+    def lineage(key, seen=()):
+        rel, qn = key
+        out = [key]
+        for b in classes[key]['bases']:
+            b = b.split('[')[0].split('.')[-1]
+            cand = [(r, q) for (r, q) in classes if q == b]
+            cand = [k for k in cand if k[0] == rel] or cand
+            for k in cand[:1]:
+                if k not in seen: out += lineage(k, seen + (key,))
+        return out
+    for key, info in sorted(classes.items()):
+        lin = lineage(key)
+        body_names = set().union(*(classes[k]['body_names'] for k in lin))
+        self_assigned = set().union(*(classes[k]['self_assigned'] for k in lin))
+        for mname, (st, w) in sorted(info['methods'].items()):
+            for owner, attr, kind in w.inst:
+                if owner == key[1] and kind != 'assign' and attr in body_names and attr not in self_assigned:
+                    shared.append((key[0], key[1] + '.' + mname, '%s.%s via self (%s)' % (key[1], attr, kind)))
+
+    # reset(): what the methods named `reset` write, one call deep (`self.m()`, `super().reset()` inside the package)
+    def reset_writes(key, mname, depth):
+        info = classes[key]
+        if mname not in info['methods']: return []
+        st, w = info['methods'][mname]
+        res = []
+        for n in ast.walk(st):
+            if isinstance(n, (ast.Assign, ast.AnnAssign)):
+                tg = n.targets if isinstance(n, ast.Assign) else [n.target]
+                val = n.value
+                for t in tg:
+                    ch = _chain(t) if isinstance(t, ast.Attribute) else None
+                    if ch and ch[0] == 'self' and val is not None:
+                        r = w._resolve(*ch)
+                        if r and r[0] == 'inst':
+                            dep = any(isinstance(x, ast.Attribute) and x.attr == ch[1][-1] for x in ast.walk(val))
+                            res.append((r[1], r[2], 'assign-self-dependent' if dep else 'assign'))
+        for owner, attr, kind in w.inst:
+            if kind != 'assign': res.append((owner, attr, kind))
+        if depth > 0:
+            for n in ast.walk(st):
+                if not (isinstance(n, ast.Call) and isinstance(n.func, ast.Attribute)): continue
+                f = n.func
+                if isinstance(f.value, ast.Name) and f.value.id == 'self' and f.attr in info['methods'] and f.attr != mname:
+                    res += reset_writes(key, f.attr, depth - 1)
+                if (isinstance(f.value, ast.Call) and isinstance(f.value.func, ast.Name) and f.value.func.id == 'super'
+                        and f.attr == mname):
+                    for k in lineage(key)[1:2]:
+                        res += [(key[1] if o == k[1] else o, a, kd) for o, a, kd in reset_writes(k, mname, depth - 1)]
+        return res
+    reset_w = []            # (resetting class, owner, attr)           re-initialising writes only
+    reset_other = []        # (resetting class, owner, attr, kind)     every other write in a `reset`
+    for key, info in sorted(classes.items()):
+        if 'reset' in info['methods']:
+            for owner, attr, kind in reset_writes(key, 'reset', 1):
+                if kind in ('assign', 'call:clear'): reset_w.append((key[1], owner, attr))
+                else: reset_other.append((key[1], owner, attr, kind))
+    reset_calls = []
+    mr = find_def(src.tree('markdown/core.py'), 'Markdown.reset')
+    if mr is None: report.append('translator-mismatch:census:Markdown.reset missing')
+    else:
+        for st in mr.body:
+            if isinstance(st, ast.Expr) and isinstance(st.value, ast.Constant): continue
+            if isinstance(st, ast.Return) and ast.unparse(st) == 'return self': continue
+            try: reset_calls.append(_flat_stmt(st))
+            except Mismatch as e: report.append('translator-mismatch:census:Markdown.reset ' + str(e))
+    reg_ext = []
+    for key, info in sorted(classes.items()):
+        em = info['methods'].get('extendMarkdown')
+        if em is None: continue
+        for n in ast.walk(em[0]):
+            if (isinstance(n, ast.Call) and isinstance(n.func, ast.Attribute) and n.func.attr == 'registerExtension'
+                    and ast.unparse(n.func.value) == 'md' and len(n.args) == 1 and ast.unparse(n.args[0]) == 'self'):
+                reg_ext.append(key[1])
+    # every class of the package with the file that defines it, where instances of package classes are constructed, and
+    # which function / method names are called anywhere (so that the Lean side can check "created afresh per run" and
+    # "never called inside the package")
+    class_list = sorted((q, r) for (r, q) in classes)
+    cnames = set(q.split('.')[-1] for (r, q) in classes)
+    constructions = set(); called = set()
+    for rel in files:
+        def visit(n, qual):
+            for c in ast.iter_child_nodes(n):
+                if isinstance(c, (ast.FunctionDef, ast.AsyncFunctionDef, ast.ClassDef)):
+                    q2 = c.name if qual == '<module>' else qual + '.' + c.name
+                    visit(c, q2); continue
+                if isinstance(c, ast.Call):
+                    f = c.func
+                    nm = f.id if isinstance(f, ast.Name) else f.attr if isinstance(f, ast.Attribute) else None
+                    if nm is not None:
+                        called.add(nm)
+                        if nm in cnames: constructions.add((nm, rel, qual))
+                visit(c, qual)
+        visit(src.tree(rel), '<module>')
+    constructions = sorted(constructions); called = sorted(called)
+
+    inst = sorted(set((o, a, m) for o, a, k, r, q, m in inst_sites))
+    inst_sites_s = sorted(set((o, a, k, r, q) for o, a, k, r, q, m in inst_sites))
+    shared = sorted(set(shared)); memo = sorted(set(memo))
+    reset_w = sorted(set(reset_w)); reset_other = sorted(set(reset_other)); reg_ext = sorted(set(reg_ext))
+    digest = hashlib.sha256(repr((inst_sites_s, shared, memo, reset_w, reset_other, reset_calls, reg_ext, constructions,
+                                  called)).encode()).hexdigest()[:16]
+
+    t = lambda *xs: '(' + ', '.join(lean_str(x) for x in xs) + ')'
+    L = ['/- GENERATED by harness/translate.py from the working tree of the repository. Do not edit.',
+         '   Structural census of mutable state: where the source text of `markdown/**/*.py` writes.  -/',
+         'namespace MdVerif.Generated.Census', '',
+         'def censusHash : String := ' + lean_str(digest), '',
+         '/-- (owner class, attribute, method): every write to instance state outside `__init__` — assignment, augmented\n'
+         '    assignment, `del`, item assignment, mutating method call — on `self.<attr>`, on resolvable chains\n'
+         '    (`self.md.x`, `self.parser.md.htmlStash.x`, parameters `md`/`parser`) and on one-level aliases.  Chains that\n'
+         '    cannot be resolved have owner `?` and the chain as attribute.  `<self>`: the object itself is mutated. -/',
+         lean_big_def('instanceWrites', 'String × String × String', [t(*x) for x in inst], per_line=1), '',
+         '/-- the same with the kind of write and the place: (owner, attribute, kind, file, Class.method) -/',
+         lean_big_def('instanceWriteSites', 'String × String × String × String × String', [t(*x) for x in inst_sites_s], per_line=1), '',
+         '/-- (class with the `reset` method, owner class, attribute): re-initialising writes (`self.x = <expr without x>`,\n'
+         '    `.clear()`) of the methods named `reset`, one call deep -/',
+         'def resetWrites : List (String × String × String) := ' + lean_list([t(*x) for x in reset_w], 1), '',
+         '/-- every other write of a method named `reset`: (class, owner, attribute, kind) -/',
+         'def resetOther : List (String × String × String × String) := ' + lean_list([t(*x) for x in reset_other], 1), '',
+         '/-- the statements of `Markdown.reset` (without docstring and `return self`) -/',
+         'def resetCalls : List String := ' + lean_list([lean_str(x) for x in reset_calls], 1), '',
+         '/-- the classes whose `extendMarkdown` calls `md.registerExtension(self)` -/',
+         'def registerExtensionCalls : List String := ' + lean_list([lean_str(x) for x in reg_ext], 4), '',
+         '/-- (file, function, target): writes *inside function bodies* to module-level or class-level state — `global`\n'
+         '    assignments, `Class.attr = …` / `module.attr = …` / `cls.attr = …`, item assignment or mutating calls on\n'
+         '    module-level names, in-place mutation through `self` of a name bound only in a class body -/',
+         'def sharedWrites : List (String × String × String) := ' + lean_list([t(*x) for x in shared], 1), '',
+         '/-- (file, function, decorator): memoising decorators -/',
+         'def memoDecorators : List (String × String × String) := ' + lean_list([t(*x) for x in memo], 1), '',
+         '/-- (class, file) of every class of the package -/',
+         lean_big_def('classes', 'String × String', [t(*x) for x in class_list], per_line=2), '',
+         '/-- (class, file, function): every place where a class of the package is instantiated (`<module>`: at import) -/',
+         lean_big_def('constructions', 'String × String × String', [t(*x) for x in constructions], per_line=1), '',
+         '/-- every name that is called (`name(…)` or `….name(…)`) anywhere in the package -/',
+         lean_big_def('calledNames', 'String', [lean_str(x) for x in called], per_line=8), '',
+         'end MdVerif.Generated.Census', '']
+    return '\n'.join(L), {'instance_writes': inst, 'shared_writes': shared, 'memo': memo, 'reset_writes': reset_w,
+                          'reset_other': reset_other, 'reset_calls': reset_calls, 'register_extension': reg_ext,
+                          'constructions': constructions, 'hash': digest}
+
+
+# emitted when the census cannot be computed: an unresolved write, so that `Props/C11Census.lean` fails
+CENSUS_STUB = """/- GENERATED by harness/translate.py: the census could not be computed. -/
+namespace MdVerif.Generated.Census
+def censusHash : String := "unavailable"
+def instanceWrites : List (String × String × String) := [("?", "census unavailable", "?")]
+def instanceWriteSites : List (String × String × String × String × String) := []
+def resetWrites : List (String × String × String) := []
+def resetOther : List (String × String × String × String) := []
+def resetCalls : List String := []
+def registerExtensionCalls : List String := []
+def sharedWrites : List (String × String × String) := [("?", "?", "census unavailable")]
+def memoDecorators : List (String × String × String) := []
+def classes : List (String × String) := []
+def constructions : List (String × String × String) := []
+def calledNames : List String := []
+end MdVerif.Generated.Census
+"""
+
+
 def model_map(src, report):
     m = []
     for rel, qual, lean in MODEL_MAP:
@@ -557,10 +1006,17 @@ def run(repo=None, write=True):
         report.append('translator-mismatch:cannot parse repository: %r' % (e,))
         tables, info = None, {}
     mm = model_map(src, report) if tables is not None else []
+    try:
+        census, cinfo = gen_census(src, report)
+        info['census'] = cinfo
+    except (SyntaxError, FileNotFoundError) as e:
+        report.append('translator-mismatch:census:cannot parse repository: %r' % (e,))
+        census = CENSUS_STUB
     changed = []
     if write:
         if write_if_changed(os.path.join(OUT_DIR, 'Chars.lean'), gen_chars()): changed.append('Chars.lean')
         if tables is not None and write_if_changed(os.path.join(OUT_DIR, 'Tables.lean'), tables): changed.append('Tables.lean')
+        if census is not None and write_if_changed(os.path.join(OUT_DIR, 'Census.lean'), census): changed.append('Census.lean')
         os.makedirs(os.path.dirname(MAP_OUT), exist_ok=True)
         write_if_changed(MAP_OUT, json.dumps({'repo': repo, 'report': report, 'model_map': mm}, indent=1, sort_keys=True))
     return {'changed': changed, 'report': report, 'info': info, 'model_map': mm}
